@@ -85,7 +85,7 @@ fn lerp_color(c1: &str, c2: &str, t: f64) -> String {
 
 fn parse_hex_color(s: &str) -> (u8, u8, u8) {
     let s = s.trim_start_matches('#');
-    if s.len() == 6 {
+    if s.len() == 6 && s.is_ascii() {
         let r = u8::from_str_radix(&s[0..2], 16).unwrap_or(0);
         let g = u8::from_str_radix(&s[2..4], 16).unwrap_or(0);
         let b = u8::from_str_radix(&s[4..6], 16).unwrap_or(0);
